@@ -49,6 +49,7 @@ type mvInput struct {
 	GenSeed int64 `json:"gen_seed,omitempty"`
 	GenN    int   `json:"gen_n,omitempty"`
 	Drains  bool  `json:"drains,omitempty"`
+	Hasty   bool `json:"hasty,omitempty"` // Close() right after the last handles are closed, while their garbage is still being collected
 	Iso     bool  `json:"iso,omitempty"` // re-scan every open snapshot after every mutating op
 	Delta   bool  `json:"delta,omitempty"` // UseDeltaInterleaving
 	Rate    int   `json:"rate,omitempty"`  // refresh rate of the Visitor's iterators (0 = the default 10000)
@@ -549,15 +550,26 @@ func (e *mvExec) checkPhysical(ph []physVer, afterGC bool) {
 
 // finish closes every handle and the instance; returns allocator ledger problems (C07).
 func (e *mvExec) finish() {
+	if e.in.Hasty && skiplist.VerifYieldHook == nil {
+		// the collection workers are slowed down inside FlushSession so that Close() really overlaps them
+		skiplist.VerifYieldHook = func(p int) {
+			if p == skiplist.VerifPtFlushLoaded {
+				time.Sleep(time.Millisecond)
+			}
+		}
+		defer func() { skiplist.VerifYieldHook = nil }()
+	}
 	for sn, c := range e.ref.snapRef {
 		for ; c > 0; c-- {
 			e.snaps[sn].Close()
 		}
 		e.ref.snapRef[sn] = 0
 	}
-	e.db.GC()
-	if !e.stalled {
-		e.quiesce()
+	if !e.in.Hasty {
+		e.db.GC()
+		if !e.stalled {
+			e.quiesce()
+		}
 	}
 	e.db.Close()
 	if e.arena != nil {
@@ -1121,6 +1133,7 @@ func mvCommandTie(prop, mode, tie string, rule string) func(a runArgs) error {
 				in.Mode = "mvcc"
 				in.MM = true
 				in.Drains = true
+				in.Hasty = i%3 == 1
 				sink.Begin(in)
 				runMvcc(in, r, n, sink, false, true)
 			case "iso":
